@@ -24,10 +24,10 @@ sys.set_int_max_str_digits(0)
 THEOREMS = ['Pyiga.Props.C11.' + t for t in [
     'gs_as_coded', 'gs_textbook', 'gs_duplicate_diagonal_not_textbook', 'gs_sweep_order', 'gs_backward_is_reversed',
     'gs_symmetric_is_forward_backward', 'gs_dense_sparse_agree', 'gs_fixed_point', 'gs_energy', 'gs_energy_le',
-    'gs_sweep_energy_le', 'subspace_correction_energy', 'mg_energy', 'mg_fixed_point', 'driver_stop', 'twogrid_stop',
+    'gs_sweep_energy_le', 'subspace_correction_energy', 'subspace_correction_energy_le', 'mg_energy', 'mg_fixed_point', 'driver_stop', 'twogrid_stop',
     'smoothing_sets',
 ]]
-MODULES = ['Pyiga.Model.Relax', 'Pyiga.Model.RatVec', 'Pyiga.Proofs.Relax', 'Pyiga.Props.C11']
+MODULES = ['Pyiga.Model.Relax', 'Pyiga.Model.RatVec', 'Pyiga.Proofs.Relax', 'Pyiga.Proofs.RelaxMG', 'Pyiga.Props.C11']
 SWEEPS = ['forward', 'backward', 'symmetric']
 SMOOTHERS = ['gs', 'forward_gs', 'backward_gs', 'symmetric_gs', 'exact']
 
@@ -364,6 +364,12 @@ def run(ctx):
     for r, g, m in zip(req, got, meta):
         nreq[m[0]] = nreq.get(m[0], 0) + 1
         bad = compare(ctx, r, g, m)
+        if bad and bad[0] == 'isolve:zero-initial-residual' and g == 'err-ZeroDivisionError':
+            # model and implementation agree (both raise); the *property* fails on this input
+            key, what, replay, found = bad
+            replay.update({'request': r[:3000], 'model': g[:2000]})
+            ctx.violation(key, what, replay, found)
+            continue
         if bad:
             ndis += 1
             if ndis <= 12:
@@ -499,6 +505,8 @@ def compare(ctx, r, g, m):
                 'smoother': smoother, 'tol': tol, 'maxiter': maxiter, 'A': Ad.tolist(), 'f': f.tolist(), 'implementation': tag}
         if g == 'err-singular':
             return None
+        if tag == 'err-ZeroDivisionError' and not np.any(f[nond]):
+            return ('isolve:zero-initial-residual', 'solve_hmultigrid raises ZeroDivisionError when f vanishes on the non-Dirichlet dofs', call, True)
         if tag != 'ok':
             return ('mgsolve-corr', 'solve_hmultigrid raised ' + tag, call, True)
         xs, ks, ratios = g.split(' ; ')
@@ -529,12 +537,21 @@ def compare(ctx, r, g, m):
         _, c, d, a, f, x0, tol, maxiter, tag, res, out = m
         call = {'call': 'solvers.iterative_solve(lambda x: c*x+d, [[a]], [f], x0, tol=tol, maxiter=maxiter)', 'c': c, 'd': d, 'a': a, 'f': f, 'x0': x0,
                 'tol': tol, 'maxiter': maxiter, 'implementation': tag}
+        res0_zero = (f - a * x0 == 0) if x0 is not None else (f == 0)
+        if tag == 'err-ZeroDivisionError' and res0_zero:
+            ctx.count('isolve: zero initial residual -> ZeroDivisionError')
+            return ('isolve:zero-initial-residual', 'iterative_solve raises ZeroDivisionError when the initial residual is zero (model mirrors: %s)' % g, call, True)
         if tag != 'ok':
             return ('isolve-corr', 'iterative_solve raised ' + tag, call, True)
         x, k = res
         want = '%s ; %s' % (frac(float(np.ravel(x)[0])), 'inf' if k == np.inf else str(int(k)))
         if want == g:
             return None
+        if ' ; ' in g:
+            xm_, km_ = g.split(' ; ')
+            # same iteration count; iterate equal up to rounding of the (up to 40) affine steps
+            if km_ == want.split(' ; ')[1] and abs(Fr(float(np.ravel(x)[0])) - Fr(xm_)) <= (1 + abs(Fr(xm_))) * Fr(1, 10 ** 12):
+                return None
         # oracle: replay the definition
         xx = 0.0 if x0 is None else x0
         res0 = abs(f - a * xx) if x0 is not None else abs(f)
